@@ -5,8 +5,8 @@ import obl_assembly as A
 def run(c):
     import clauses
     c.only_clauses = clauses.OWN["C09"]
-    if A.validate_assembly_concrete(c):
-        ct = A.conv_table_for([p for w in A.WRAPPERS_QUICK for p in w])
-        A.obl_learn(c, ct, thorough=(c.tier == "thorough"), budget_s=2400)
+    A.validate_assembly_concrete(c)     # a mismatch makes the run inconclusive; the obligations still run, and what they find is reported only after native confirmation
+    ct = A.conv_table_for([p for w in A.WRAPPERS_QUICK for p in w])
+    A.obl_learn(c, ct, thorough=(c.tier == "thorough"), budget_s=2400)
     c.outside("persistence across processes: the store written by serde_json::to_string is assumed to be read back unchanged by from_slice "
               "(contract of serde_json and the file system); every restart point between two commits")
